@@ -116,14 +116,17 @@ def stalled_listener_scenario(bins, idx, rng, mib=12):
         # socket towards the stopped listener holds is still to come); only then does `app` write its tail and exit
         fx.add_cmd("filler", "build", [{"op": "out", "text": "filler starts\n"}, {"op": "out_repeat", "text": line, "times": times, "unique": True},
                                        {"op": "touch", "path": "filler-most"},
-                                       {"op": "out_repeat", "text": line, "times": times // 2, "unique": True},
+                                       {"op": "out_repeat", "text": line, "times": times * 3, "unique": True},
                                        {"op": "out", "stream": "stderr", "text": "filler done\n"}, {"op": "exit", "code": 0}], ext=".sh")
         fx.add_cmd("app", "build", [{"op": "out", "text": "app first line\n"}, {"op": "touch", "path": "app-first"},
-                                    {"op": "wait", "paths": ["filler-most"], "timeout_ms": 60000}, {"op": "sleep", "ms": 800},
+                                    {"op": "wait", "paths": ["filler-most"], "timeout_ms": 60000}, {"op": "sleep", "ms": 1500},
+                                    # one more short line, and time for it to be flushed: the reader of this task is now stuck
+                                    # handing that line to the stopped listener, and what follows stays in the pipe
+                                    {"op": "out", "text": "app second line\n"}, {"op": "sleep", "ms": 1700},
                                     {"op": "out", "text": tail_text}, {"op": "out", "stream": "stderr", "text": "app err\n"}, {"op": "exit", "code": 0}], ext=".sh")
         fx.add_cmd("late", "build", [{"op": "out", "text": "late\n"}, {"op": "exit", "code": 0}], ext=".sh")
-        written = {("filler", "stdout"): b"filler starts\n" + repeat_unique(line, times) + repeat_unique(line, times // 2), ("filler", "stderr"): b"filler done\n",
-                   ("app", "stdout"): b"app first line\n" + tail_text.encode(), ("app", "stderr"): b"app err\n",
+        written = {("filler", "stdout"): b"filler starts\n" + repeat_unique(line, times) + repeat_unique(line, times * 3), ("filler", "stderr"): b"filler done\n",
+                   ("app", "stdout"): b"app first line\napp second line\n" + tail_text.encode(), ("app", "stderr"): b"app err\n",
                    ("late", "stdout"): b"late\n", ("late", "stderr"): b""}
         fx.git_init()
         lst = taillib.Listener(fx, {"stdout": True, "stderr": True})
